@@ -425,6 +425,11 @@ def rule_cyclic_layout(repo: Repo, rep: Report) -> int:
     n += 1
     # advertised distance of a generic cyclic code
     md = repo.func(CYC, "CyclicCodeEncoder.minimum_distance")
+    from .c20 import module_level_containers, rule_cache_key
+
+    cache_names = set(module_level_containers(md.module))
+    # a memoised advertised value must be keyed by everything that determines it (n, k AND the generator polynomial)
+    n += rule_cache_key(repo, rep, [repo.cls(CYC, "CyclicCodeEncoder")])
     rets = returns_of(md.node)
     for r in rets:
         e = Inliner(md).inline(r.value)
@@ -433,6 +438,18 @@ def rule_cyclic_layout(repo: Repo, rep: Report) -> int:
             rep.violation("ADVERTISED-DISTANCE", md, f"return {unparse(r.value)} (= {txt})", "for dimensions above the enumeration limit the weight of g is advertised as the minimum distance; wt(g) is only an UPPER bound on d (g is a codeword), the property needs true d >= advertised", node=r)
         elif txt == "int(min_weight)":
             rep.ok("ADVERTISED-DISTANCE", md, f"return {unparse(r.value)}", "minimum weight over all non-zero messages (exact)", node=r)
+        elif isinstance(r.value, ast.Subscript) and isinstance(r.value.value, ast.Name) and r.value.value.id in cache_names:
+            rep.ok("ADVERTISED-DISTANCE", md, f"return {unparse(r.value)}", "memoised value: decided by the cache-key rule below", node=r, nontrivial=False)
+        elif isinstance(r.value, ast.Name) and len([a_ for a_ in ast.walk(md.node) if isinstance(a_, ast.Assign) and any(isinstance(t_, ast.Name) and t_.id == r.value.id for t_ in a_.targets)]) > 1:
+            defs_ = [a_ for a_ in ast.walk(md.node) if isinstance(a_, ast.Assign) and any(isinstance(t_, ast.Name) and t_.id == r.value.id for t_ in a_.targets)]
+            for a_ in defs_:
+                t2 = unparse(a_.value)
+                if "count('1')" in t2 and "_generator_poly" in t2 and "min" not in t2:
+                    rep.violation("ADVERTISED-DISTANCE", md, f"return {unparse(r.value)} (= {t2})", "for dimensions above the enumeration limit the weight of g is advertised as the minimum distance; wt(g) is only an UPPER bound on d (g is a codeword), the property needs true d >= advertised", node=a_)
+                elif t2 == "int(min_weight)":
+                    rep.ok("ADVERTISED-DISTANCE", md, f"{unparse(a_)}", "minimum weight over all non-zero messages (exact)", node=a_)
+                else:
+                    rep.undecided("ADVERTISED-DISTANCE", md, f"{unparse(a_)}", "not recognised", node=a_)
         else:
             rep.undecided("ADVERTISED-DISTANCE", md, f"return {unparse(r.value)}", "not recognised", node=r)
         n += 1
@@ -447,6 +464,13 @@ def run(repo: Repo, rep: Report, tier: str) -> None:
     n += rule_extension(repo, rep)
     n += rule_hamming_columns(repo, rep)
     n += rule_cyclic_layout(repo, rep)
+    # BCH / RS constructions presuppose that alpha (the class of X modulo the tabulated modulus) is primitive:
+    # with a non-primitive modulus the consecutive powers alpha^1..alpha^(delta-1) are not distinct roots and the
+    # designed distance is not reached.  Same rule as C18.
+    from .c18 import rule_modulus_table
+
+    rule_modulus_table(repo, rep)
+    n += 1
     for file, names in ((HAM, ["create_hamming_parity_submatrix"]), (GOLAY, ["create_golay_parity_submatrix"]), (BCH, ["compute_bch_generator_polynomial", "create_bch_generator_matrix"])):
         for nm in names:
             lint_value_keyed(rep, repo.func(file, nm), rule="G1", allowed_literals={0, 1, -1, 2, 8})
